@@ -132,6 +132,20 @@ Section Sem.
     rewrite (evs_refine f args HF _ _ E). exact H.
   Qed.
 
+  (* rewrite_under_context: a rewriting f that preserves every expression it is applied to may be
+     applied to the operands of a call and under a cast - soundness is closed under the contexts
+     of the fragment *)
+  Lemma context_closed (f : expr -> expr) :
+    (forall a s r, ev s a = Some r -> ev s (f a) = Some r) ->
+    (forall op args s r, ev s (BCall op args) = Some r -> ev s (BCall op (map f args)) = Some r) /\
+    (forall t a s r, ev s (Cast t a) = Some r -> ev s (Cast t (f a)) = Some r).
+  Proof.
+    intro Hf. split.
+    - intros op args. apply bcall_refine. apply Forall_forall. intros a _. apply Hf.
+    - intros t a s r H. rewrite ev_cast in *. destruct (ev s a) as [[v s']|] eqn:E; [|discriminate].
+      rewrite (Hf _ _ _ E). exact H.
+  Qed.
+
   (* constants evaluate to themselves and leave the state alone *)
   Lemma evs_consts args : forall vs s, const_vals args = Some vs -> evs s args = Some (vs, s).
   Proof.
